@@ -203,7 +203,17 @@ func runC13(c *core.Ctx) {
 			for i, st := range sel.States {
 				if i != selIdx {
 					call, isCall := st.Chan.(*ssa.Call)
-					if !isCall || core.StdCallee(&call.Call) != "time.After" || call.Call.Args[0] != ssa.Value(f.Params[2]) {
+					if !isCall {
+						// the definition of time.After written out: timer := time.NewTimer(timeout); <-timer.C
+						if ld, isLd := st.Chan.(*ssa.UnOp); isLd && ld.Op == token.MUL {
+							if fa, isFA := ld.X.(*ssa.FieldAddr); isFA {
+								if nt, isNT := core.Resolve(fa.X).(*ssa.Call); isNT && core.StdCallee(&nt.Call) == "time.NewTimer" && fa.X.Type().Underlying().(*types.Pointer).Elem().Underlying().(*types.Struct).Field(fa.Field).Name() == "C" {
+									call, isCall = nt, true
+								}
+							}
+						}
+					}
+					if !isCall || (core.StdCallee(&call.Call) != "time.After" && core.StdCallee(&call.Call) != "time.NewTimer") || core.Resolve(call.Call.Args[0]) != ssa.Value(f.Params[2]) {
 						ok, d = false, "the second select arm is not time.After(timeout)"
 					}
 				}
